@@ -152,18 +152,43 @@ def explore_execute(funcs, index, enums):
 
 
 # ----------------------------------------------------------------------------------------------- normalize_options
-def explore_normalize(funcs, index, enums):
+def replace_arg_chain(text):
+    """the clap builder calls do_xargs applies to the -i/--replace argument, read from the MIR (the model of ArgMatches::indices_of
+    depends on one of them: an occurrence without a value has an index only if a default_missing_value supplies the value)"""
+    import re
+    i = text.find("clap::Arg::new::<&str>(const xargs::options::REPLACE)")
+    if i < 0:
+        return None
+    j = text.find("clap::Command::arg::<clap::Arg>", i)
+    return sorted(set(re.findall(r"clap::Arg::(\w+)", text[i:j])))
+
+
+def explore_normalize(funcs, index, enums, text=None):
     res = {"kind": "normalize_options", "paths": 0, "checks": 0, "violations": [], "unsupported": {}, "samples": []}
+    chain = replace_arg_chain(text) if text else None
+    if chain is None:
+        res["unsupported"]["definition of the -i/--replace argument not found in do_xargs"] = 1
+        chain = []
+    res["replace_arg_definition"] = chain
+    default_missing = any(c.startswith("default_missing_value") for c in chain)
+    form_i, form_val = z3.Bool("replace_given_as_I"), z3.Bool("replace_has_value")
     has = {k: z3.Bool("has_" + k) for k in ("n", "L", "I", "d", "null")}
     pos = {k: z3.Int("pos_" + k) for k in ("n", "L", "I", "d", "null")}
     nval, lval, dval = z3.Int("n_val"), z3.Int("l_val"), z3.Int("d_val")
-    NAMES = {"max-args": "n", "max-lines": "L", "replace-I": "I", "replace": None, "delimiter": "d", "null": "null"}
+    NAMES = {"max-args": "n", "max-lines": "L", "replace-I": "I", "replace": "I", "delimiter": "d", "null": "null"}
     state = {}
 
     def indices_of(m, args):
-        k = NAMES.get(text_of(m, args[1]))
+        name = text_of(m, args[1])
+        k = NAMES.get(name)
         if k is None or not state["has"][k]:
             return models.NONE()
+        if k == "I":
+            # -I R is the argument "replace-I"; -i[=R] / --replace[=R] is the argument "replace", possibly without a value
+            if (name == "replace-I") != (state["form"] == "I"):
+                return models.NONE()
+            if state["form"] == "i_noval" and not default_missing:
+                return models.NONE()
         return Some(Struct("Indices", [[pos[k]]]))
 
     def next_back(m, args):
@@ -224,6 +249,9 @@ def explore_normalize(funcs, index, enums):
         try:
             hv = {k: m.decide(has[k]) for k in has}
             state["has"] = hv
+            state["form"] = "none"
+            if hv["I"]:
+                state["form"] = "I" if m.decide(form_i) else ("i_val" if m.decide(form_val) else "i_noval")
             repl = [Some(RStr("{}")) if hv["I"] else models.NONE()]
             opts = [Struct("Options", [models.NONE(), Some(dval) if hv["d"] else models.NONE(), False, Some(nval) if hv["n"] else models.NONE(), models.NONE(),
                                        Some(lval) if hv["L"] else models.NONE(), False, hv["null"], repl[0], False])]
@@ -288,7 +316,7 @@ def explore_normalize(funcs, index, enums):
                 if delim.variant != "Some" or delim.fields[0] != 10: bad.append("-I without -0/-d does not split at newlines only")
             elif delim.variant != "None": bad.append("delimiter %r without -0/-d/-I" % (delim,))
         for w in bad:
-            res["violations"].append({"what": w, "given": given, "has": {k: v for k, v in hv.items()}})
+            res["violations"].append({"what": w, "given": given, "has": {k: v for k, v in hv.items()}, "form": state["form"]})
         if len(res["samples"]) < 3 and len(given) >= 2:
             res["samples"].append({"given": given, "mode": got_mode, "delimiter": str(delim)})
     res["wall_s"] = round(time.time() - t0, 2)
@@ -297,11 +325,118 @@ def explore_normalize(funcs, index, enums):
     return res
 
 
+# ----------------------------------------------------------------------------------------------- the -I pipeline: process_input + real execute
+PIPE_INIT = ["a{}b", "X%%", "plain", "{}{}"]
+PIPE_LINES = ["l 1", "{}", "X"]
+
+
+def explore_pipeline(nlines, funcs, index, enums):
+    """process_input, CommandBuilderOptions::new, CommandBuilder::{new,add_arg,execute}, the -n 1 limiter and CommandResult::combine
+    from their MIR, in the configuration normalize_options selects for -I (max_args = 1, replace = Some(R)); the reader hands out
+    nlines hard-terminated lines (symbolic texts), every child has a symbolic fate, -r is a symbolic flag."""
+    res = {"kind": "pipeline/%d lines" % nlines, "paths": 0, "checks": 0, "violations": [], "unsupported": {}, "samples": []}
+    r_i = z3.Int("repl")
+    l_i = [z3.Int("line%d" % i) for i in range(nlines)]
+    outc = [z3.Int("out%d" % i) for i in range(nlines + 1)]         # 0 exit 0, 1 exit 1..254, 2 exit 255
+    no_run = z3.Bool("no_run_if_empty")
+    state = {}
+
+    def reader_next(m, args):
+        i = state["read"]
+        if i >= nlines:
+            return Ok(models.NONE())
+        state["read"] = i + 1
+        return Ok(Some(Struct("Argument", [RStr(sym=l_i[i], vocab=PIPE_LINES), Enum("ArgumentKind", "HardTerminated", [])])))
+
+    def cmd_new(m, args):
+        c = Struct("Cmd", [text_of(m, args[0]), [], None, False, False])
+        state["cmds"].append(c)
+        return c
+
+    def cmd_args(m, args):
+        items, a, b = as_list(args[1])
+        deref(args[0]).fields[1].extend(text_of(m, x) for x in items[a:b])
+        return args[0]
+
+    def cmd_status(m, args):
+        k = len(state["outs"])
+        o = m.decide_int(outc[k], [0, 1]) if k < len(outc) else 0
+        o = 2 if o is None else o
+        state["outs"].append(o)
+        return Ok(Struct("ExitStatusV", [o]))
+
+    natives = {"<IdReader as ArgumentReader>::next": reader_next, "Command::new": cmd_new, "Command::args": cmd_args,
+               "Command::env_clear": lambda m, a: a[0], "Command::envs": lambda m, a: a[0], "Command::stdin": lambda m, a: a[0], "Command::status": cmd_status,
+               "ExitStatus::success": lambda m, a: deref(a[0]).fields[0] == 0,
+               "ExitStatus::code": lambda m, a: Some({0: 0, 1: 7, 2: 255}[deref(a[0]).fields[0]])}
+    m = Machine(funcs, index, enums, models, natives=natives)
+    m.base_constraints = [r_i >= 0, r_i < len(REPL)] + [z3.And(l >= 0, l < len(PIPE_LINES)) for l in l_i] + [z3.And(o >= 0, o <= 2) for o in outc]
+    m.pending = [[]]
+    t0 = time.time()
+    while m.pending:
+        m.reset_path(m.pending.pop())
+        state.update(read=0, cmds=[], outs=[])
+        try:
+            nr = m.decide(no_run)
+            action = Enum("ExecAction", "Command", [VecObj([PStr("cmd")] + [PStr(x) for x in PIPE_INIT])])
+            coll = Struct("LimiterCollection", [VecObj([BoxObj(Struct("MaxArgsCommandSizeLimiter", [0, 1]))])])
+            r = m.call("CommandBuilderOptions::new", [action, Opaque("env"), coll, Some(RStr(sym=r_i, vocab=REPL))])
+            if r.variant != "Ok":
+                res["violations"].append({"what": "command rejected by -n 1 alone"})
+                res["paths"] += 1
+                continue
+            bo = [r.fields[0]]
+            opts = [Struct("InputProcessOptions", [False, Some(1), models.NONE(), nr])]
+            rr = m.call("process_input", [Ptr(bo, 0), BoxObj(Struct("IdReader", [])), Ptr(opts, 0)])
+        except RustPanic as e:
+            res["violations"].append({"what": "panic: " + str(e)[:100], "lines": nlines, "no_run_if_empty": nr, "invocations": len(state["cmds"])})
+            res["paths"] += 1
+            continue
+        except Unsupported as e:
+            res["unsupported"][str(e)[:100]] = res["unsupported"].get(str(e)[:100], 0) + 1
+            continue
+        except PathAbort:
+            continue
+        res["paths"] += 1
+        s = z3.Solver()
+        for c in m.base_constraints + m.pc: s.add(c)
+        s.check()
+        mod = s.model()
+        val = lambda v: mod.eval(v, model_completion=True).as_long()
+        R = REPL[val(r_i)]
+        lines = [PIPE_LINES[val(v)] for v in l_i]
+        outs = state["outs"]
+        fatal = [k for k, o in enumerate(outs) if o == 2]
+        ran = len(lines) if not fatal else fatal[0] + 1
+        bad = []
+        res["checks"] += 1
+        got = [[c.fields[0]] + c.fields[1] for c in state["cmds"]]
+        want = [["cmd"] + [a.replace(R, ln) for a in PIPE_INIT] for ln in lines[:ran]]
+        if got != want:
+            bad.append("invocations %r, expected %r" % (got, want))
+        if fatal:
+            if not (rr.variant == "Err" and len(outs) == fatal[0] + 1):
+                bad.append("exit 255 did not stop xargs at once: result %s after outcomes %s" % (rr.variant, outs))
+        else:
+            wres = "Failure" if any(o == 1 for o in outs) else "Success"
+            if rr.variant != "Ok" or rr.fields[0].variant != wres:
+                bad.append("result %s, expected Ok(%s) for outcomes %s" % (rr.variant if rr.variant != "Ok" else "Ok(%s)" % rr.fields[0].variant, wres, outs))
+        for w in bad:
+            res["violations"].append({"what": w, "R": R, "lines": lines, "no_run_if_empty": nr})
+        if len(res["samples"]) < 2 and nlines >= 2 and not fatal:
+            res["samples"].append({"R": R, "lines": lines, "invocations": got})
+    res["wall_s"] = round(time.time() - t0, 2)
+    res["solver_calls"] = m.stats["solver_calls"]
+    res["functions_executed"] = sorted(m.executed)
+    return res
+
+
 if __name__ == "__main__":
     text = open(sys.argv[2]).read() if len(sys.argv) > 2 else None
-    funcs, index, enums, secs, _ = loader.load(os.environ.get("FINDUTILS_REPO", "/repo"), text)
+    funcs, index, enums, secs, text = loader.load(os.environ.get("FINDUTILS_REPO", "/repo"), text)
     for which in (sys.argv[1].split(",") if len(sys.argv) > 1 else ["execute", "normalize"]):
-        r = explore_execute(funcs, index, enums) if which == "execute" else explore_normalize(funcs, index, enums)
+        r = (explore_execute(funcs, index, enums) if which == "execute" else explore_normalize(funcs, index, enums, text) if which == "normalize"
+             else explore_pipeline(int(which[4:]), funcs, index, enums))
         v = r.pop("violations")
         print(json.dumps({k: r[k] for k in ("kind", "paths", "checks", "solver_calls", "wall_s", "unsupported", "samples")})[:900])
         print(len(v), "violations")
